@@ -626,11 +626,14 @@ func TestCheck(t *testing.T) {
 			if bad {
 				return // what follows would only restate the same defect
 			}
-			if want := spec.Wire(); !bytes.Equal(got, want) {
-				r.Violate("encode", i, "encode:message-bytes", fmt.Sprintf("message bytes differ from header+questions+records: %s vs %s", mon.Clip(mon.Hex(got), 400), mon.Clip(mon.Hex(want), 400)), payload)
-				return
+			// The plain concatenation header + questions + records is ONE correct encoding; an encoder may also use
+			// name compression (RFC 1035 4.1.4). Equality is therefore only counted: what decides is whether the
+			// independent codec (2.) and the package's own decoder (3.) read the same message out of the bytes.
+			if want := spec.Wire(); bytes.Equal(got, want) {
+				r.Count("encode_bytes_equal", 1)
+			} else {
+				r.Count("encode_bytes_differ_from_the_uncompressed_form", 1)
 			}
-			r.Count("encode_bytes_equal", 1)
 			// 2. dnsmessage reads the same message
 			if d := spec.CheckParse(got); d != nil {
 				r.Violate("encode", i, "dnsmessage:"+d.Class, "dnsmessage disagrees with the encoded message: "+d.Detail, payload)
